@@ -232,6 +232,11 @@ func (m *BaseUndoLogManager) FlushUndoLog(tranCtx *types.TransactionContext, con
 	if err != nil {
 		return err
 	}
+	// the compress type recorded in the context is what rollback decompresses with
+	rollbackInfo, err = compressor.CompressorType(parseContext[compressorTypeKey]).GetCompressor().Compress(rollbackInfo)
+	if err != nil {
+		return err
+	}
 
 	return m.InsertUndoLog(undo.UndologRecord{
 		BranchID:     tranCtx.BranchID,
